@@ -261,10 +261,17 @@ def c13_uamiv_step_count(v, spec):
     from . import refcamx
     if not v['kind'] == 'readers-disagree:uamiv':
         return False
-    st = refcamx.step_times(spec)
-    past_midnight = st[0][0] != st[-1][0]
+    # the two triggers, as the reader's arithmetic has them: (a) the FIRST
+    # step ends on another date than it starts (its length is then taken as
+    # 2400 - hour, and every count derived from it is wrong); (b) the step
+    # is an even number of hours (a day is then counted as 2400) AND the
+    # file's end stamp is on another date than its start.  A file with odd
+    # steps whose first step stays within its day is counted correctly, also
+    # when it ends at or after midnight.
+    et = refcamx.end_times(spec)
+    first_crosses = et[0][0] != spec['sdate']
     even = spec.get('dhour', 1) % 2 == 0
-    if not (past_midnight or even):
+    if not (first_crosses or (even and et[-1][0] != spec['sdate'])):
         return False
     pr = v.get('problems') or []
     emis = spec.get('name') == 'EMISSIONS' and spec.get('nz', 1) > 1
